@@ -350,6 +350,33 @@ def atomic_delimiter_rule(rep):
     rep.floor("C03.f", ntests, 60)
 
 
+def locator_entity_rule(rep):
+    from ..engines import guard
+    rep.rule("C03.g", "positions come from the enclosing external entity, however deep the nesting: ReaderMgr::getLastExtEntity, which "
+             "the Locator and every error position go through, walks down the reader stack in a loop (CFG cycle) whose body tests "
+             "each stacked entity with isExternal() — internal entities can be nested to any depth, so a fixed number of steps "
+             "reports line numbers relative to an intermediate entity's text and a null system id")
+    g = core.run_xa([os.path.join(core.REPO, "src/xercesc/internal/ReaderMgr.cpp")], cfg=r"^ReaderMgr::getLastExtEntity$", flat=False)
+    cfg = guard.Cfg(g.cfg("ReaderMgr::getLastExtEntity"))
+    # blocks on a cycle
+    def reach(b0):
+        seen, work = set(), list(cfg.succs(b0))
+        while work:
+            b = work.pop()
+            if b in seen:
+                continue
+            seen.add(b)
+            work.extend(cfg.succs(b))
+        return seen
+    cyc = {b for b in cfg.blocks if b in reach(b)}
+    tests = [b for b in cyc if (cfg.blocks[b].get("term") or {}).get("cond") and guard.mentions(
+        cfg.blocks[b]["term"]["cond"], lambda y: isinstance(y, list) and y and y[0] == "c" and y[1].split("::")[-1] == "isExternal")]
+    ok = bool(tests)
+    rep.ob("C03.g", "ReaderMgr::getLastExtEntity", ok, "stack walked in a loop that tests isExternal()" if ok else
+           "ReaderMgr::getLastExtEntity no longer walks the reader stack in a loop testing isExternal(): for internal entities nested "
+           "more than one deep the position reported is that inside an intermediate internal entity", "src/xercesc/internal/ReaderMgr.cpp")
+
+
 def run(rep):
     f = core.library_facts()
     rep.units.update(os.path.relpath(t, core.REPO) for t in f.tus)
@@ -361,6 +388,7 @@ def run(rep):
     escaped_flag_rule(rep, f)
     eol_rule(rep)
     atomic_delimiter_rule(rep)
+    locator_entity_rule(rep)
     rep.undecided += ["every value-level clause: line-end and attribute-value normalisation, entity expansion results, character references, "
                       "DTD defaulting, line numbers — not applicable to static analysis",
                       "that the forwarded arguments are the right ones"]
